@@ -233,6 +233,8 @@ fn as_stream(sc: &CodecSc, imp: Imp) -> StreamScenario {
         explicit_gate: true,
         flushes: vec![],
         buffered: false,
+        gate_calls: vec![],
+        trace: false,
         inbound: sc.stream.clone(),
         reads: sc.segs.iter().map(|n| ReadEv::Data((*n).max(1))).collect(),
         writes: vec![],
